@@ -331,6 +331,180 @@ theorem wide_change_dirties_span (b : Buf) (x y i : Int) (m : Rune) (c : List Ru
   simp only [dirty, if_pos hr', setContent_cells, if_pos hr, hpre]
   split <;> simp [Cell.isDirty, hl]
 
+/-! ### both trees: the pinned Fill and the Fill repaired by fixes/C09-fill-zero-width.patch
+
+`Buf.applyV fz` / `Buf.runV fz` / `runGhostV fz` are the op semantics of the tree of variant `fz`
+(`fz = false`: pinned, Fill stores width 1 for every rune; `fz = true`: Fill stores width 0 for a zero-width rune).
+The theorems above are about `fz = false` (`applyV_false`); the ones below hold for both. -/
+
+theorem applyV_false (b : Buf) (op : CbOp) : b.applyV false rw op = b.apply rw op := by
+  cases op <;> first | rfl | exact fillV_false rw b _ _
+
+theorem runV_false (ops : List CbOp) (b : Buf) : Buf.runV false rw b ops = Buf.run rw b ops := by
+  induction ops generalizing b with
+  | nil => rfl
+  | cons op ops ih =>
+    show Buf.runV false rw (b.applyV false rw op) ops = Buf.run rw (b.apply rw op) ops
+    rw [applyV_false]; exact ih _
+
+/-- Fill of either tree stores the rune with no combining runes in every cell, merging ColorNone per cell; the
+recorded width is 1, except that the repaired tree records 0 for a zero-width rune. -/
+theorem fillV_spec (fz : Bool) (b : Buf) (r : Rune) (s : Style) (x y : Int) :
+    let c' := (b.fillV fz rw r s).cells x y
+    c'.currMain = r ∧ c'.currComb = [] ∧ c'.width = (if fz = true ∧ rw r = 0 then 0 else 1) ∧
+    c'.currStyle = { s with fg := if s.fg = colorNone then (b.cells x y).currStyle.fg else s.fg,
+                            bg := if s.bg = colorNone then (b.cells x y).currStyle.bg else s.bg } := by
+  simp [Cell.filledW, Cell.fillWidth, Style.merge]
+
+/-- **GetContent after the repaired Fill**, for EVERY rune (zero-width, control, wide, out of range): the rune with
+a blank substituted exactly as after SetContent (`get_set`), no combining runes, the merged style, width 1. -/
+theorem get_fill_repaired (b : Buf) (r : Rune) (s : Style) (x y : Int) (hr : b.inRange x y) :
+    (b.fillV true rw r s).getContent x y =
+      (if rw r = 0 ∨ r < 32 then 32 else r, [], (b.cells x y).currStyle.merge s, 1) := by
+  have hr' : (b.fillV true rw r s).inRange x y := by simpa [inRange_iff] using hr
+  simp only [getContent, if_pos hr', fillV_cells, Cell.filledW_width, Cell.filledW_currMain, Cell.filledW_currComb,
+    Cell.filledW_currStyle]
+  by_cases h0 : rw r = 0
+  · simp [Cell.fillWidth_true_zero rw r h0, h0]
+  · by_cases h1 : r < 32 <;> simp [Cell.fillWidth_ne0 true rw r h0, h0, h1]
+
+/-- …whereas the pinned Fill hands back a zero-width rune at or above ' ' unblanked (the defect `C08-fill-zero-width` /
+`C09-fill-control`; concrete instance: `Tcell.Props.C09.fill_c1_not_blank`). -/
+theorem get_fill_pinned (b : Buf) (r : Rune) (s : Style) (x y : Int) (hr : b.inRange x y) :
+    (b.fill r s).getContent x y = (if r < 32 then 32 else r, [], (b.cells x y).currStyle.merge s, 1) := by
+  have hr' : (b.fill r s).inRange x y := by simpa [inRange_iff] using hr
+  simp only [getContent, if_pos hr', fill_cells, Cell.filled]
+  by_cases h1 : r < 32 <;> simp [h1]
+
+/-- side condition of the reported-width law on an op: Fill is used with a rune of width 1 — or, on the repaired
+tree, of width 0 (with `0 ≤ rw r`: with a rune *not wider than 1*, see `fillOk_repaired_iff`) -/
+def FillOk (fz : Bool) : CbOp → Prop
+  | .fill r _ => rw r = 1 ∨ (fz = true ∧ rw r = 0)
+  | _ => True
+
+theorem fillOk_repaired_iff (r : Rune) (s : Style) (hnn : 0 ≤ rw r) : FillOk rw true (.fill r s) ↔ rw r ≤ 1 := by
+  simp only [FillOk, true_and]; omega
+
+/-- the exact width invariant: the stored width is that of the stored rune, or the cell was normalised from the
+zero rune to a blank by SetDirty(false) (= the hypothesis `hw` of `reported_width`; `WidthOk` without its "written by
+Fill" disjunct) -/
+def WidthExact (c : Cell) : Prop := c.width = rw c.currMain ∨ (c.width = 0 ∧ c.currMain = 32)
+
+theorem widthExact_step (fz : Bool) (h0 : rw 0 = 0) (b : Buf) (hb : ∀ x y, WidthExact rw (b.cells x y)) (op : CbOp)
+    (hop : FillOk rw fz op) : ∀ i j, WidthExact rw ((b.applyV fz rw op).cells i j) := by
+  intro i j
+  have hij := hb i j
+  cases op with
+  | setContent x y m c s =>
+    simp only [Buf.applyV, Buf.apply, setContent_cells]
+    have pre : WidthExact rw ((b.preDirty x y m c).cells i j) := by
+      rcases preDirty_cases b x y m c i j with e | e <;> rw [e]
+      · exact hij
+      · simpa [WidthExact] using hij
+    split
+    · split
+      · simp only [WidthExact, Cell.store_width, Cell.store_currMain] at pre ⊢
+        by_cases hh : ((b.preDirty x y m c).cells i j).currMain = m
+        · simp only [hh, ne_eq, not_true_eq_false, if_false]; rw [hh] at pre; exact pre
+        · simp only [ne_eq, hh, not_false_eq_true, if_true]; left; trivial
+      · exact pre
+    · exact hij
+  | fill r s =>
+    simp only [Buf.applyV, fillV_cells, WidthExact, Cell.filledW_width, Cell.filledW_currMain]
+    left
+    rcases hop with h | ⟨hf, h⟩
+    · rw [Cell.fillWidth_ne0 fz rw r (by omega), h]
+    · subst hf; rw [Cell.fillWidth_true_zero rw r h, h]
+  | resize w h =>
+    simp only [Buf.applyV, Buf.apply]
+    by_cases hh : b.h = h ∧ b.w = w
+    · obtain ⟨ha, hb'⟩ := hh; subst ha hb'; rw [resize_same]; exact hij
+    · rw [resize_cells _ _ _ _ _ hh]; split
+      · simpa [WidthExact] using hij
+      · left; simp [h0]
+  | invalidate => simpa [Buf.applyV, Buf.apply, WidthExact] using hij
+  | setDirty x y d =>
+    cases d
+    · simp only [Buf.applyV, Buf.apply, setDirty_false_cells]; split
+      · simp only [WidthExact, Cell.markClean_width, Cell.markClean_currMain] at hij ⊢
+        by_cases hz : (b.cells i j).currMain = 0
+        · simp only [hz, if_true, and_true]
+          rcases hij with h1 | h1
+          · right; rw [h1, hz, h0]
+          · exact absurd h1.2 (by rw [hz]; decide)
+        · simpa [hz] using hij
+      · exact hij
+    · simp only [Buf.applyV, Buf.apply, setDirty_true_cells]; split
+      · simpa [WidthExact] using hij
+      · exact hij
+  | lockCell x y =>
+    simp only [Buf.applyV, Buf.apply, lockCell_cells]; split
+    · simpa [WidthExact] using hij
+    · exact hij
+  | unlockCell x y =>
+    simp only [Buf.applyV, Buf.apply, unlockCell_cells]; split
+    · simpa [WidthExact] using hij
+    · exact hij
+
+theorem widthExact_inv (fz : Bool) (h0 : rw 0 = 0) (ops : List CbOp) (hops : ∀ op ∈ ops, FillOk rw fz op) (x y : Int) :
+    WidthExact rw ((Buf.runV fz rw Buf.empty ops).cells x y) := by
+  suffices H : ∀ (ops : List CbOp) (b : Buf), (∀ op ∈ ops, FillOk rw fz op) → (∀ x y, WidthExact rw (b.cells x y)) →
+      ∀ x y, WidthExact rw ((Buf.runV fz rw b ops).cells x y) by
+    apply H ops _ hops; intro x y; left; simp [Buf.empty, h0]
+  intro ops
+  induction ops with
+  | nil => intro b _ hb; exact hb
+  | cons op ops ih =>
+    intro b ho hb
+    exact ih _ (fun o h => ho o (List.mem_cons_of_mem _ h))
+      (widthExact_step rw fz h0 b hb op (ho op (List.mem_cons_self ..)))
+
+/-- **The reported-width law, full strength, on either tree.**  After every history in which Fill is used with runes
+of width 1 — on the repaired tree: with runes *not wider than one column*, zero-width, control and invalid ones
+included (`fillOk_repaired_iff`) — GetContent of every in-range cell reports the width of the stored rune `m`, i.e.
+`max 1 (rw m)`, with a blank of width 1 standing in for zero-width and control runes.  (Fill with a wide rune is
+outside Fill's documented domain on both trees: it records width 1.) -/
+theorem reported_width_law (fz : Bool) (h0 : rw 0 = 0) (h32 : rw 32 = 1) (ops : List CbOp)
+    (hops : ∀ op ∈ ops, FillOk rw fz op) (x y : Int) (hr : (Buf.runV fz rw Buf.empty ops).inRange x y) :
+    let b := Buf.runV fz rw Buf.empty ops
+    let m := (b.cells x y).currMain
+    ((b.getContent x y).2.2.2 = if rw m = 0 ∨ m < 32 then 1 else rw m) ∧
+    ((b.getContent x y).1 = if rw m = 0 ∨ m < 32 then 32 else m) :=
+  reported_width rw h32 _ x y hr (widthExact_inv rw fz h0 ops hops x y)
+
+/-- the ghost invariant is preserved by every op on either tree -/
+theorem ghostInv_stepV (fz : Bool) (b : Buf) (g : Ghost) (op : CbOp) (hinv : GhostInv b g) :
+    GhostInv (b.applyV fz rw op) (g.step b (b.applyV fz rw op) op) := by
+  cases op with
+  | fill r s =>
+    intro i j hr hl
+    simp only [Buf.applyV, Ghost.step, fillV_cells, Cell.filledW_lastMain, Cell.filledW_last] at hr hl ⊢
+    exact hinv i j (by simpa [inRange_iff] using hr) hl
+  | setContent x y m c s => exact ghostInv_step rw b g _ hinv
+  | resize w h => exact ghostInv_step rw b g _ hinv
+  | invalidate => exact ghostInv_step rw b g _ hinv
+  | setDirty x y d => exact ghostInv_step rw b g _ hinv
+  | lockCell x y => exact ghostInv_step rw b g _ hinv
+  | unlockCell x y => exact ghostInv_step rw b g _ hinv
+
+theorem ghostInv_runV (fz : Bool) (ops : List CbOp) (b : Buf) (g : Ghost) (h : GhostInv b g) :
+    GhostInv (runGhostV fz rw (b, g) ops).1 (runGhostV fz rw (b, g) ops).2 := by
+  induction ops generalizing b g with
+  | nil => exact h
+  | cons op ops ih => simp only [runGhostV]; exact ih _ _ (ghostInv_stepV rw fz b g op h)
+
+/-- **Dirty never misses a change, on either tree** (`dirty_sound` is the instance `fz = false`). -/
+theorem dirty_soundV (fz : Bool) (ops : List CbOp) (x y : Int) :
+    let s := runGhostV fz rw (Buf.empty, Ghost.none) ops
+    s.1.inRange x y → (s.1.cells x y).lock = false → s.1.dirty x y = false →
+      s.2 x y = some (s.1.cells x y).content := by
+  intro s hr hl hd
+  have hinv : GhostInv s.1 s.2 :=
+    ghostInv_runV rw fz ops _ _ (by intro x y hr; simp [Buf.empty, inRange_iff] at hr; omega)
+  simp only [dirty, if_pos hr] at hd
+  rw [Cell.isDirty_false_iff _ hl] at hd
+  rw [hinv x y hr hd.1, hd.2]
+
 /-! ### non-vacuity: a concrete 3×2 buffer with a wide rune exercises the hypotheses -/
 
 def rwDemo : Rune → Int := fun r => if r = 0x4e16 then 2 else if r = 0 then 0 else 1
@@ -345,5 +519,17 @@ example : (Buf.run rwDemo Buf.empty demoOps).dirty 0 0 = true := by decide
 example : (Buf.run rwDemo Buf.empty (demoOps ++ [.setDirty 0 0 false])).dirty 0 0 = false := by decide
 example : ((runGhost rwDemo (Buf.empty, Ghost.none) (demoOps ++ [.setDirty 0 0 false])).2 0 0) =
     some (0x61, [0x301], {}) := by decide
+
+/-- the hypotheses of `reported_width_law` are satisfiable on the repaired tree with a zero-width Fill rune, and the two
+trees differ exactly there -/
+def rwDemoZ : Rune → Int := fun r => if r = 0x4e16 then 2 else if r = 0 ∨ r = 0x200b ∨ r = 0x9b then 0 else 1
+def demoFill : List CbOp := [.resize 2 1, .fill 0x200b {}, .setContent 1 0 0x200b [0x301] {}]
+example : ∀ op ∈ demoFill, FillOk rwDemoZ true op := by
+  intro op h; simp only [demoFill, List.mem_cons, List.not_mem_nil, or_false] at h
+  rcases h with h | h | h <;> subst h <;> simp [FillOk, rwDemoZ]
+example : (Buf.runV true rwDemoZ Buf.empty demoFill).getContent 0 0 = (32, [], {}, 1) := by decide
+example : (Buf.runV true rwDemoZ Buf.empty demoFill).getContent 1 0 = (32, [0x301], {}, 1) := by decide
+example : (Buf.runV false rwDemoZ Buf.empty demoFill).getContent 0 0 = (0x200b, [], {}, 1) := by decide
+example : (Buf.runV false rwDemoZ Buf.empty demoFill).getContent 1 0 = (0x200b, [0x301], {}, 1) := by decide
 
 end Tcell.Props.C08
